@@ -63,7 +63,7 @@ def make_config(prop, rng, tier):
         })
     elif prop == "C07":
         cfg.update({
-            "cls": "rigid",
+            "cls": rng.choice(["rigid", "rigid", "rigid", "pro"]),
             "max_steps": rng.choice([15, 30, 45]),
             "nsteps": rng.randint(1, 10), "maxw": rng.choice([4, 5, 6]),
             "atoms": rng.randint(1, 2),
@@ -106,6 +106,7 @@ class World(BaseWorld):
         self.tasks = {}       # name -> dict
         self._den, self._den_key = None, None
         self.nf_done = {}
+        self.nf_budget = {}
 
     # -- helpers -----------------------------------------------------------
     def vio(self, what, msg, **details):
@@ -379,12 +380,12 @@ class World(BaseWorld):
             legal = M.is_single_move(prev, gm)
             if legal:
                 self.note("step_is_move")
-            elif self.cfg["cls"] == "rigid" and M.is_snake_deletion(prev, gm):
+            elif self.cfg["cls"] in ("rigid", "pro") and M.is_snake_deletion(prev, gm):
                 legal = True
                 self.note("step_is_yank")
             if not legal:
                 raise self.vio("illegal-step", "%s is neither one legal interchange%s" % (
-                    what, " nor the removal of one valid snake" if self.cfg["cls"] == "rigid" else ""),
+                    what, " nor the removal of one valid snake" if self.cfg["cls"] in ("rigid", "pro") else ""),
                     prev=list(prev[2]), got=list(gm[2]))
         else:   # foliate: bundles several moves; must stay in the class
             if not M.same_boxes(prev, gm):
@@ -492,8 +493,11 @@ class World(BaseWorld):
             # the same request again (another walker, or later in the session): the answer
             # must be the same - a cache or other state that survives a call would show here
             before = self.nf_done[(model, left)]
-            outcome, nf = self._normal_form(real, left, NF_MIN_BUDGET * 10)
+            outcome, nf = self._normal_form(real, left, 3 * self.nf_budget.get((model, left), NF_MIN_BUDGET * 10))
             again = M.model_of(nf) if outcome == "value" else outcome
+            if outcome == "budget":
+                self.note("nf_repeated_request_inconclusive")     # three times the first budget: no verdict
+                return "inconclusive"
             if before is not None and again != before:
                 raise self.vio("unstable", "normal_form of the same diagram gave %s the first time and %s "
                                "when asked again in the same session" % (
@@ -505,6 +509,7 @@ class World(BaseWorld):
         ended, repeated, last, last_model, lines = self._own_trace(
             real, model, left, op.get("m2seed", 0), TRACE_CAP if connected else 120)
         outcome, nf = self._normal_form(real, left, max(NF_MIN_BUDGET, 30 * lines))
+        self.nf_budget[(model, left)] = max(NF_MIN_BUDGET, 30 * lines)
         self.case("nf", model, left)
         self.note("nf_connected" if connected else "nf_disconnected")
         if outcome.startswith("exception"):
@@ -533,9 +538,9 @@ class World(BaseWorld):
         self.nf_done[(model, left)] = nm
         if ended and not repeated and (nf != last or nm != last_model):
             raise self.vio("final", "normal_form differs from the last step of its own trace")
-        if not boxes_preserved(model, nm, self.cfg["cls"] == "rigid"):
+        if not boxes_preserved(model, nm, self.cfg["cls"] in ("rigid", "pro")):
             raise self.vio("boxes", "normal form has other boxes than its input%s" % (
-                " minus cups and caps" if self.cfg["cls"] == "rigid" else ""))
+                " minus cups and caps" if self.cfg["cls"] in ("rigid", "pro") else ""))
         self.denot_equal(model, nm, op.get("m2seed", 0), "normal form")
         # fixed point
         o2, nf2 = self._normal_form(nf, left, max(NF_MIN_BUDGET, 30 * lines))
@@ -545,7 +550,7 @@ class World(BaseWorld):
         first = next(iter(nf.normalize(left=left)), None)
         if first is not None:
             raise self.vio("fixed-point", "a normaliser started on a normal form still yields a step")
-        if self.cfg["cls"] == "rigid":
+        if self.cfg["cls"] in ("rigid", "pro"):
             left_over = [x for x in M.snakes(nm) if x[3]]
             if left_over:
                 raise self.vio("residual-snake", "normal form still contains a valid snake "
@@ -722,9 +727,10 @@ class Driver:
     def spec(self):
         cfg, rng = self.cfg, self.s["gen"]
         cls = cfg["cls"]
-        if cls == "rigid" and self.prop == "C07":
+        if cls in ("rigid", "pro") and self.prop == "C07":
             atoms = ("a", "b")[:cfg["atoms"]]
-            return B.gen_rigid(rng, cfg["nsteps"], atoms, cfg["maxw"], cfg["zs"], cfg["p_template"])
+            return B.gen_rigid(rng, cfg["nsteps"], atoms, cfg["maxw"], cfg["zs"], cfg["p_template"],
+                               selfdual=(cls == "pro"))
         if cls == "rigid" and self.prop == "C05" and rng.random() < 0.5:
             return B.gen_rigid(rng, max(1, cfg["nboxes"]), ("a", "b")[:max(1, min(2, cfg["atoms"]))],
                                cfg["maxw"], (0, 0, 1, -1, 2), 0.4)
@@ -756,7 +762,8 @@ class Driver:
                             for _ in range(cfg.get("walkers", 1) if self.prop == "C05" else 1)]
             if self.prop == "C07" and gen.random() < 0.35:
                 rng = self.s["gen"]
-                base = B.gen_monoidal(rng, rng.randint(1, 3), "rigid", ("a", "b")[:cfg["atoms"]], 2,
+                base = B.gen_monoidal(rng, rng.randint(1, 3), cfg["cls"],
+                                      ("1",) if cfg["cls"] == "pro" else ("a", "b")[:cfg["atoms"]], 2,
                                       0.8, 0.2, 0.2)
                 recipe = [rng.choice(["transpose_l", "transpose_r", "transpose_l", "transpose_r", "dagger",
                                       "cup_close", "cap_open"]) for _ in range(rng.randint(1, 3))]
